@@ -52,7 +52,14 @@ def run_impl(case):
         return out
     if k == 'loops':
         fn = D.run_loops_par if case.get('par') else D.run_loops
-        return fn(case['cfg'], case['plan'], case.get('form', 'deco'))
+        o = fn(case['cfg'], case['plan'], case.get('form', 'deco'))
+        # reference for "independent": each loop's own part of the plan, alone, against the class itself
+        solo = []
+        for l in sorted({st[1] for st in case['plan']}):
+            so = D.run_loops(case['cfg'], [st for st in case['plan'] if st[1] == l], 'ctor')
+            solo += [x for x in so['loops'] if x[0] == l]
+        o['solo'] = solo
+        return o
     raise ValueError(k)
 
 
@@ -116,7 +123,7 @@ def error_obs(case, o):
     bad = dict(starts=[], dones=[[0, D.EXC]])
     if k == 'batcher':
         return dict(direct=bad, deco=dict(starts=[], dones=[]), ctor=bad, cross=1)
-    return dict(loops=[[0, bad]], cross=1)
+    return dict(loops=[[0, bad]], solo=[], cross=1)
 
 
 # ---- Coq literals -----------------------------------------------------------
@@ -182,7 +189,8 @@ def to_coq(case, o):
         return (f"CBatcher {_ocfg(case['cfg'])} {_bscript(case['script'])} {_btrace(o['direct'])} "
                 f"{_btrace(o['deco'])} {_btrace(o['ctor'])} {C.coq_nat(min(o['cross'], 9))}")
     obs = C.coq_list([f'({l}, {_btrace(t)})' for l, t in o['loops']])
-    return f"CLoops {_ocfg(case['cfg'])} {_plan(case['plan'])} {obs} {C.coq_nat(min(o['cross'], 9))}"
+    solo = C.coq_list([f'({l}, {_btrace(t)})' for l, t in o.get('solo', [])])
+    return f"CLoops {_ocfg(case['cfg'])} {_plan(case['plan'])} {obs} {solo} {C.coq_nat(min(o['cross'], 9))}"
 
 
 def explain_exprs(case, o):
@@ -472,8 +480,8 @@ def shrink_candidates(case):
     for i in range(len(plan)):
         out.append(dict(case, plan=plan[:i] + plan[i + 1:]))
     for i, s in enumerate(plan):
-        if s[0] == 'seg':
-            for j in range(len(s[2])):
+        if s[0] == 'seg' and len(s[2]) > 1:        # never leave an empty segment (the harness would create a
+            for j in range(len(s[2])):             # loop the script never uses)
                 out.append(dict(case, plan=plan[:i] + [['seg', s[1], s[2][:j] + s[2][j + 1:]]] + plan[i + 1:]))
     for o in list(case['cfg']):
         out.append(dict(case, cfg={p: v for p, v in case['cfg'].items() if p != o}))
